@@ -24,6 +24,9 @@ func randOps(rnd *rand.Rand, cat *Catalog, steps int, profile string, honest boo
 	// a single repository gets most of the traffic so that histories are deep
 	hot := pick(cat.Repos)
 	repo := func() string {
+		if genBadNames && rnd.Intn(40) == 0 {
+			return pick(badRepos)
+		}
 		if rnd.Intn(4) != 0 {
 			return hot
 		}
@@ -304,3 +307,6 @@ func pick3(rnd *rand.Rand) int { return []int{0, 0, 1, 2, 3, 5}[rnd.Intn(6)] }
 // genRetireAfterCommit: a session is not used again once Commit has been called on its
 // writer (a client writer is finished by Commit; only ocimem's Buffer can go on).
 var genRetireAfterCommit bool
+
+// genBadNames: a small share of the calls name an ill-formed repository.
+var genBadNames bool
